@@ -39,6 +39,7 @@ type DeclCfg struct {
 	PHiddenGrp   int
 	PHiddenCmd   int
 	PBase        int
+	PCmdTwin     int // a sibling command is named like the previous one up to case / one trailing character
 	PNamedRest   int // a []string rest positional is declared with the named type StrList
 	PPosLongTag  int // a positional field also carries a long: tag
 	PPosSplit    int // the positionals are declared in two positional-args structs
@@ -225,6 +226,24 @@ func (n *namer) genCmdBody(c *Cmd) {
 			if names == nil {
 				names = map[string]bool{}
 				n.cmdName[c] = names
+			}
+			if i > 0 && r.Chance(cfg.PCmdTwin, 100) {
+				// a sibling whose name differs from the previous one only in case, or by one trailing character
+				prev := c.Subs[len(c.Subs)-1].Name
+				cand := ""
+				switch r.Intn(3) {
+				case 0:
+					cand = flipCase(prev)
+				case 1:
+					cand = prev + r.Pick([]string{"i", "x", "1"})
+				default:
+					if len(prev) > 2 && prev[len(prev)-1] < 0x80 {
+						cand = prev[:len(prev)-1]
+					}
+				}
+				if cand != "" && !names[cand] {
+					sc.Name = cand
+				}
 			}
 			names[sc.Name] = true
 			if r.Chance(cfg.PAliases, 100) {
